@@ -280,11 +280,16 @@ func check(c Case, o *stats.Obs) error {
 	go func() { ret <- fh.Handle(drive.StartTime, br) }()
 	var got []handler.Message
 	closed := false
-	deadline := time.After(30 * time.Second)
+	// no-progress limit: 30 s without a byte taken from the reader or a message (the total duration is not limited - a
+	// megabyte of junk under the race detector on a busy machine takes its time)
+	tick := time.NewTicker(3 * time.Second)
+	defer tick.Stop()
+	lastCalls, lastChange := -1, time.Now()
 collect:
 	for {
 		if c.StallMs > 0 && len(got) == c.StallAt {
 			time.Sleep(time.Duration(c.StallMs) * time.Millisecond)
+			lastChange = time.Now()
 		}
 		select {
 		case m, ok := <-msgChan:
@@ -293,13 +298,21 @@ collect:
 				break collect
 			}
 			got = append(got, m)
-		case <-deadline:
-			break collect
+			lastChange = time.Now()
+		case <-tick.C:
+			rd.mu.Lock()
+			calls := rd.supplied // bytes handed over so far: retries that yield nothing are not progress
+			rd.mu.Unlock()
+			if calls != lastCalls {
+				lastCalls, lastChange = calls, time.Now()
+			} else if time.Since(lastChange) >= 30*time.Second {
+				break collect
+			}
 		}
 	}
 	if !closed {
 		o.Key = "not-closed"
-		return fmt.Errorf("message channel not closed within 30 s (terminal %s, timeout %d ms, %d reader calls)", c.Terminal, c.TimeoutMs, rd.calls)
+		return fmt.Errorf("message channel not closed: no byte taken from the reader and no message for 30 s (terminal %s, timeout %d ms, %d bytes supplied)", c.Terminal, c.TimeoutMs, lastCalls)
 	}
 	var herr error
 	select {
